@@ -22,48 +22,64 @@ CLAIMS = {
  "C02": dict(
   text="Bounded model checking of the combinator sites: eval_conjunction_clauses for every leaf outcome vector (PASS/FAIL/SKIP/Err) "
        "of every CNF shape up to 2x2 (quick) / 3x3 (thorough) incl. short-circuit, the emitted Disjunction records and start/end "
-       "balance; eval_guard_named_clause for every dependent status x negation; the clause-level block record; Status::and algebra.",
-  note="NOT covered: eval_rule / eval_rules_file / when / type / guard blocks (they build scopes: out of CBMC's reach), the real "
-       "RecordTracker's tree (only call balance through a counting stub), the JSON rendering.",
+       "balance; eval_guard_named_clause for every dependent status x negation; the clause-level block record; Status::and algebra. "
+       "The rule / file / when sites that Kani cannot reach are decided by bounded symbolic execution of their MIR (lib/mirexec.py, "
+       "z3+cvc5): eval_rules_file (<=2 rules: file status = fold, FileCheck record, each rule evaluated through eval_rule exactly once), "
+       "eval_rule and eval_when_condition_block (body evaluated iff the `when` is PASS, else SKIP; status = body status; records).",
+  note="The MIR checks model every callee by a symbolic result (e.g. eval_rule returns an arbitrary Result<Status,Error>), unroll loops "
+       "twice and treat unknown statements as havoc: they decide the aggregation logic of each function, not the callees. NOT covered: "
+       "type blocks and guard blocks over query values, the real RecordTracker's tree (only call balance through a counting stub), "
+       "the JSON rendering.",
   design="4/C02"),
  "C03": dict(
   text="Bounded model checking of negation on the unary path at leaf level (not_operation / inverse_operation laws for all 9 unary "
        "operators on every kind of query result: prefix `not` == operator-level `!`, double negation restores, errors never become "
        "successes) AND at clause level (eval_guard_access_clause with symbolic operator polarity, prefix negation and some/all: the "
        "clause status is the per-value truth xor `!op` xor `not`); `not R` for named rules for every status of R.",
-  note="NOT covered: the binary path (`not X == v`): the operator layer does not terminate under CBMC, so the known upstream defect "
-       "'prefix not is ignored on binary clauses' (visible by reading eval.rs:1150 and confirmed natively) cannot be exhibited by this "
-       "machinery and is therefore not listed as a finding. Parser side of negation.",
+  note="Binary path: the operator layer (operators.rs) does not terminate under CBMC, so binary clauses are covered only by a MIR-level "
+       "dependency check on eval_guard_access_clause (z3+cvc5): along the paths that call binary_operation, some value passed or branched "
+       "on must change when gac.negation is flipped. On the pinned tree it did not (prefix `not` ignored on ==,!=,<,<=,>,>=,in: genuine "
+       "defect, replayed through the CLI, fixed in /repo). The value-level effect of the operator-level flag (result flipping table in "
+       "operators.rs) is NOT decided. Parser side of negation not covered.",
   design="4/C03"),
  "C04": dict(
   text="Bounded model checking that the real CNF combinator returns the same status for a CNF and for any permutation of its "
        "lines and alternatives (symbolic permutation, up to 3x3) with optional duplication of a line/alternative, for all leaf status "
        "vectors; plus commutativity/associativity of the file-status combination.",
-  note="NOT covered: the history dimension (memoised variables / rule statuses in RootScope under different evaluation orders), rule "
-       "order in eval_rules_file: they need the real scope (HashMaps, traversal) which CBMC does not get through.",
+  note="History dimension: decided at MIR level only as 'memo consistency' of RootScope::rule_status, RootScope::resolve_variable and "
+       "BlockScope::resolve_variable (what is stored in the cache is the value returned, on every path; callees havoced, opaque values "
+       "tracked by identity) plus the order-free fold of eval_rules_file. NOT covered: the traversal that fills those caches, key "
+       "capture (add_variable_capture_key), parameterised rules.",
   design="4/C04"),
  "C06": dict(
   text="Bounded model checking of the two pure exit-code kernels: commands::test::get_exit_code folded over any sequence of <= 4 "
        "per-file codes is max-by-severity (1 > 7 > 0) and never reaches unreachable!(); reporters::test::get_status_result decides "
        "'expectation met' exactly by the documented rule for 1..3 definitions. Cross-checked by a MIR->SMT-LIB translation of "
-       "get_exit_code decided by z3 and cvc5.",
-  note="NOT covered: validate's fold over rules files ('last non-zero wins') and everything that involves files, stdin, clap, the "
-       "structured reporters and main(): inline in I/O code without a symbolic entry point.",
+       "get_exit_code decided by z3 and cvc5. validate's per-rules-file logic is decided on MIR (bounded symbolic execution, callees "
+       "modelled): evaluate_against_data_input returns FAIL iff some data file's evaluation was FAIL (<=2 data files), evaluate_rule "
+       "maps parse error -> 5, FAIL -> 19, else 0.",
+  note="NOT covered: validate's fold over several rules files in Validate::execute ('last non-zero wins'), the --structured reporters, "
+       "JUnit exit-code update, files/stdin/clap, main(). The MIR checks fix verbose = print_json = false and no input parameters.",
   design="4/C06"),
  "C08": dict(
   text="Panic-freedom (Kani's panic/overflow/bounds/unwrap checks) of every harnessed kernel for all inputs in its bound, in particular "
        "substring byte slicing on multi-byte strings, the 100-byte preview slice of build_data_file on malformed non-ASCII data, "
        "list-index magnitude for every i32 incl. i32::MIN (both traversal engines), unreachable!() sites in get_exit_code / "
-       "eval_guard_named_clause / the clause evaluator's unary path, error propagation of the CNF combinator. Three genuine defects "
-       "were found this way and fixed (known_findings.json: fixed).",
+       "eval_guard_named_clause / the clause evaluator's unary path, error propagation of the CNF combinator. Plus MIR-level searches "
+       "(z3+cvc5; havoc mode, directed CFG paths) for failing arithmetic-overflow / negate asserts in emit_code, retrieve_index and "
+       "query_retrieval_with_converter, and for out-of-bounds `v[i]` in operators::contained_in, EqOperation::compare and "
+       "each_lhs_compare (len / is_empty / index modelled per value); every candidate is replayed through the real CLI. Five genuine "
+       "C08 defects were found this way and fixed (known_findings.json: fixed).",
   note="NOT covered: arbitrary bytes through the nom parser and libyaml, recursion depth, the report builder's unreachable!()s, "
        "operators.rs match_value. K14 stubs values::read_from (forced to fail) and str::trim (identity).",
   design="4/C08"),
  "C09": dict(
   text="Bounded model checking of the combination rule only: FileReport::combine / Status::and over up to 4 parts give FAIL iff some "
        "part FAIL, PASS iff none FAIL and some PASS, else SKIP, independent of order; no 'Incompatible to merge' panic for equal names.",
-  note="NOT covered: the partition itself (simplified_json_from_root) and clause attribution (report builder: 18 min timeout on a 2-rule "
-       "tree), the serialised JSON. This is the second sentence of the property, no more.",
+  note="Also decided (MIR, z3+cvc5): eval_rules_file writes its records by evaluating every rule through eval_rule exactly once per "
+       "iteration - the precondition for every rule to appear in the report (a rule served from the status cache writes no RuleCheck "
+       "record). NOT covered: the partition itself (simplified_json_from_root) and clause attribution (report builder: 18 min timeout "
+       "on a 2-rule tree), the serialised JSON.",
   design="4/C09"),
  "C13": dict(
   text="Bounded model checking of the comparison kernel: for ALL pairs of i64, ALL pairs of f64 (NaN => not comparable, -0.0 == 0.0), "
@@ -122,7 +138,7 @@ def main():
             "engine": "kani-cbmc",
             "level_claimed": {"category": "model_checking", "text": c["text"], "design_ref": "DESIGN.md section " + c["design"]},
             "level_note": TB + c["note"],
-            "technique": "bounded symbolic execution of the real Rust code with Kani 0.68 / CBMC 6.11 (SAT, CaDiCaL); MIR->SMT-LIB cross-check with z3+cvc5 for the integer/enum kernels",
+            "technique": "bounded symbolic execution of the real Rust code: Kani 0.68 / CBMC 6.11 (SAT, CaDiCaL) on the compiled crate + path-by-path symbolic execution of the crate's MIR to SMT-LIB decided by z3 and cvc5",
         })
     na = [{"property_id": p, "reason": NA[p]} for p in props if p not in CLAIMS]
     assert set(props) == set(CLAIMS) | set(NA)
@@ -139,8 +155,8 @@ def main():
         "engines": [
             {"name": "kani-cbmc", "path": "/verif/check", "serves_properties": sorted(CLAIMS),
              "kind_free_text": "Kani 0.68 (rustc MIR -> goto-program) + CBMC 6.11 (symbolic execution, bit-blasting, CaDiCaL) over the real cfn-guard crate; counterexamples replayed natively with cargo kani playback"},
-            {"name": "mir-smt", "path": "/verif/lib/mirsmt.py", "serves_properties": ["C06", "C16", "C09", "C02", "C04", "C13"],
-             "kind_free_text": "nightly -Zunpretty=mir dump of the current tree, translated to SMT-LIB2 (bit-vectors / enumeration sorts) for loop-free integer/enum kernels, decided by z3 4.8.12 and cvc5 1.0 (must agree)"},
+            {"name": "mir-smt", "path": "/verif/lib/mirsmt.py", "serves_properties": ["C01", "C02", "C03", "C04", "C06", "C08", "C09", "C13", "C16"],
+             "kind_free_text": "nightly -Zunpretty=mir dump of the current tree; lib/mirsmt.py (loop-free kernels, havoc-mode overflow/negate site search), lib/mirexec.py (bounded path enumeration with call models, loop unrolling, value identities) and lib/miragg.py (aggregation, memoisation, index and negation-flow obligations) emit SMT-LIB2 decided by z3 4.8.12 and cvc5 1.0 (must agree); candidates are replayed through the real CLI built from the scratch copy"},
         ],
         "checks": checks,
         "notes": "Solver-based checking only (see DESIGN.md). exit 0 = held within the stated bounds; exit 1 + VIOLATION line = natively reproduced counterexample; exit 2 = inconclusive (timeout, OOM, harness no longer compiles, vacuous harness, non-reproducing counterexample) - never reported as success. Genuine defects found and fixed: known_findings.json.",
